@@ -215,6 +215,7 @@ LOOP:
 	for i := len(n.indexes); i < len(n.children); i++ {
 		child := n.children[i]
 		path := ctx.Path
+		old, found := ctx.Get(child.segment.Name) // 可能已经存在同名的参数，比如由 Matcher 写入的。
 
 		if !child.segment.Match(ctx) { // 不匹配
 			continue
@@ -225,7 +226,11 @@ LOOP:
 
 		// 不匹配子元素，则恢复原有数据
 		ctx.Path = path
-		ctx.Delete(child.segment.Name)
+		if found {
+			ctx.Set(child.segment.Name, old)
+		} else {
+			ctx.Delete(child.segment.Name)
+		}
 	}
 
 	// 没有子节点匹配，len(p.Path)==0，且子节点不为空，可以判定与当前节点匹配。
